@@ -22,7 +22,8 @@ LEVEL_TEXT = ("Histories of operations run on one connection, or on two API inst
 RULE = ("case = clients (type, id, key) + ordered operations (kind, accepted args, session to issue, clock gap, reply delays); "
         "modes: all 16 + 256 sequences of length <= 2, Hypothesis lists of 3..20 operations, two clients run under asyncio.gather. "
         "Non-trivial = history with >= 2 operations on a connection whose consecutive logins got different session ids; "
-        "distinct by (kinds, clients, sessions, delays).")
+        "distinct by (kinds, clients, sessions, delays)."
+        ' Also: all ordered pairs of operation kinds with generated arguments, clocks within +-2 h of a UTC-offset change of the host zone, host zones other than UTC, and (thorough) a device that takes 6 and 11 real seconds to answer the login.')
 ASSUMPTIONS = [
     "the harness owns the schedule: reply delays are counts of event-loop turns; the only interleavings explored are those a single-threaded asyncio client can observe",
     "two operations are never run concurrently on the same API object (unsupported by the stream protocol)",
